@@ -3,6 +3,7 @@ package main
 import (
 	"fmt"
 	"go/ast"
+	"go/constant"
 	"go/token"
 	"go/types"
 	"os"
@@ -489,6 +490,8 @@ func (p *bndProver) condFact(cond ssa.Value, truth bool, depth int) {
 			if truth {
 				p.le(lenNode(x.Call.Args[1]), lenNode(x.Call.Args[0]))
 			}
+		default:
+			p.boolSummaryFacts(x, truth)
 		}
 	case *ssa.BinOp:
 		op := x.Op
@@ -637,6 +640,9 @@ func (p *bndProver) expand(n bnode) {
 			same := true
 			for i, e := range x.Edges {
 				l := lenNode(e)
+				if mk, ok := e.(*ssa.MakeSlice); ok {
+					l = bnorm(mk.Len) // slices made with one and the same length
+				}
 				if i == 0 {
 					first = l
 				} else if l != first {
@@ -2025,6 +2031,7 @@ type bretFact struct {
 	ln    bool // relation to len(param)
 	upper bool // result <= base + c ; otherwise base + c <= result
 	c     int64
+	field string // when set: relation to len(param.field) (field key of bndFieldKey)
 }
 
 type bretKey struct {
@@ -2057,14 +2064,41 @@ func (c *Ctx) retSummary(f *ssa.Function, idx int, depth int, consts map[int]int
 		param int
 		ln    bool
 		n     bnode
+		field string
 	}
 	cands := []cand{{param: -1}}
 	for i, pa := range f.Params {
 		switch {
 		case isSignedInt(pa.Type()):
-			cands = append(cands, cand{i, false, bnode{v: pa}})
+			cands = append(cands, cand{i, false, bnode{v: pa}, ""})
 		case isStringType(pa.Type()) || isSliceOrArray(pa.Type()):
-			cands = append(cands, cand{i, true, bnode{v: pa, ln: true}})
+			cands = append(cands, cand{i, true, bnode{v: pa, ln: true}, ""})
+		}
+	}
+	// the length of a slice/string field read from a pointer parameter (a small read-only helper
+	// such as `func (c *T) clamp(i int) int` relates its result to len(c.items))
+	if readOnlyFunc(f, 0) {
+		seenField := map[string]bool{}
+		for _, ins := range instrsIn(f) {
+			ld, ok := ins.(*ssa.UnOp)
+			if !ok || ld.Op != token.MUL || !(isStringType(ld.Type()) || isSliceOrArray(ld.Type())) {
+				continue
+			}
+			fa, ok := ld.X.(*ssa.FieldAddr)
+			if !ok {
+				continue
+			}
+			pa, ok := fa.X.(*ssa.Parameter)
+			if !ok {
+				continue
+			}
+			_, fk := bndFieldKey(fa)
+			for i, q := range f.Params {
+				if q == pa && fk != "" && !seenField[fmt.Sprintf("%d/%s", i, fk)] {
+					seenField[fmt.Sprintf("%d/%s", i, fk)] = true
+					cands = append(cands, cand{i, true, lenNode(ld).n, fk})
+				}
+			}
 		}
 	}
 	type acc struct {
@@ -2129,10 +2163,10 @@ func (c *Ctx) retSummary(f *ssa.Function, idx int, depth int, consts map[int]int
 	if !first {
 		for i, cd := range cands {
 			if ups[i].ok {
-				out = append(out, bretFact{cd.param, cd.ln, true, ups[i].c})
+				out = append(out, bretFact{cd.param, cd.ln, true, ups[i].c, cd.field})
 			}
 			if los[i].ok {
-				out = append(out, bretFact{cd.param, cd.ln, false, los[i].c})
+				out = append(out, bretFact{cd.param, cd.ln, false, los[i].c, cd.field})
 			}
 		}
 	}
@@ -2162,7 +2196,16 @@ func (p *bndProver) summaryFacts(call *ssa.Call, idx int, me blin) {
 			if f.param >= len(args) {
 				continue
 			}
-			if f.ln {
+			if f.field != "" {
+				// len(arg.field): a load of that field of the same object in the calling function,
+				// in the block of the call with nothing in between that could write memory (the
+				// callee itself is read-only)
+				ld := fieldLoadNear(call, args[f.param], f.field)
+				if ld == nil {
+					continue
+				}
+				base = lenNode(ld)
+			} else if f.ln {
 				base = lenNode(args[f.param])
 			} else {
 				base = bnorm(args[f.param])
@@ -2246,4 +2289,276 @@ func runBNDFor(c *Ctx, r *Result, rule string, reach *Reach, rootName string, mi
 	}
 	r.Assume("integer arithmetic on offsets and lengths does not overflow (they are bounded by the sizes of strings and slices in memory)")
 	r.Assume("BND stage 1 trusts the Go compiler's bounds-check elimination: an index or slice expression it emits no check for cannot panic")
+}
+
+// fieldLoadNear: a load of the field (key of bndFieldKey) of object obj in the block of call, with
+// no store, map update or call to anything but read-only functions between the two.
+func fieldLoadNear(call *ssa.Call, obj ssa.Value, fieldKey string) *ssa.UnOp {
+	b := call.Block()
+	ci := -1
+	for i, ins := range b.Instrs {
+		if ins == ssa.Instruction(call) {
+			ci = i
+		}
+	}
+	if ci < 0 {
+		return nil
+	}
+	quiet := func(ins ssa.Instruction) bool {
+		switch x := ins.(type) {
+		case *ssa.Store, *ssa.MapUpdate, *ssa.Send, *ssa.Go, *ssa.Defer:
+			return false
+		case *ssa.Call:
+			if _, isB := x.Call.Value.(*ssa.Builtin); isB {
+				n := x.Call.Value.(*ssa.Builtin).Name()
+				return n == "len" || n == "cap"
+			}
+			callee := x.Call.StaticCallee()
+			return callee != nil && len(callee.Blocks) > 0 && readOnlyFunc(callee, 0)
+		}
+		return true
+	}
+	match := func(ins ssa.Instruction) *ssa.UnOp {
+		ld, ok := ins.(*ssa.UnOp)
+		if !ok || ld.Op != token.MUL {
+			return nil
+		}
+		fa, ok := ld.X.(*ssa.FieldAddr)
+		if !ok {
+			return nil
+		}
+		if _, fk := bndFieldKey(fa); fk != fieldKey {
+			return nil
+		}
+		if fa.X != obj && (bndCtx == nil || bndCtx.canon(fa.X) != bndCtx.canon(obj)) {
+			return nil
+		}
+		return ld
+	}
+	for i := ci - 1; i >= 0; i-- {
+		if ld := match(b.Instrs[i]); ld != nil {
+			return ld
+		}
+		if !quiet(b.Instrs[i]) {
+			break
+		}
+	}
+	for i := ci + 1; i < len(b.Instrs); i++ {
+		if ld := match(b.Instrs[i]); ld != nil {
+			return ld
+		}
+		if !quiet(b.Instrs[i]) {
+			break
+		}
+	}
+	return nil
+}
+
+// boolSummary: constant bounds on the parameters (ints, lengths, lengths of slice/string fields
+// read from pointer parameters) of a read-only boolean module function that hold whenever it
+// returns `truth` (`func (f *T) hasLast() bool { n := len(f.items); return n > 0 && ... }` returns
+// true only if len(f.items) >= 1).
+func (c *Ctx) boolSummary(f *ssa.Function, truth bool, depth int) []bretFact {
+	if c.bret == nil {
+		c.bret = map[bretKey][]bretFact{}
+		c.bretBusy = map[bretKey]bool{}
+	}
+	k := bretKey{f, -1, fmt.Sprintf("bool=%v", truth)}
+	if s, ok := c.bret[k]; ok {
+		return s
+	}
+	if c.bretBusy[k] || depth >= 2 || len(f.Blocks) == 0 || !readOnlyFunc(f, 0) {
+		return nil
+	}
+	res := f.Signature.Results()
+	if res.Len() != 1 {
+		return nil
+	}
+	if b, ok := res.At(0).Type().Underlying().(*types.Basic); !ok || b.Kind() != types.Bool {
+		return nil
+	}
+	c.bretBusy[k] = true
+	defer func() { c.bretBusy[k] = false }()
+	type cand struct {
+		param int
+		ln    bool
+		n     bnode
+		field string
+	}
+	var cands []cand
+	for i, pa := range f.Params {
+		switch {
+		case isSignedInt(pa.Type()):
+			cands = append(cands, cand{i, false, bnode{v: pa}, ""})
+		case isStringType(pa.Type()) || isSliceOrArray(pa.Type()):
+			cands = append(cands, cand{i, true, bnode{v: pa, ln: true}, ""})
+		}
+	}
+	seenField := map[string]bool{}
+	for _, ins := range instrsIn(f) {
+		ld, ok := ins.(*ssa.UnOp)
+		if !ok || ld.Op != token.MUL || !(isStringType(ld.Type()) || isSliceOrArray(ld.Type())) {
+			continue
+		}
+		fa, ok := ld.X.(*ssa.FieldAddr)
+		if !ok {
+			continue
+		}
+		pa, ok := fa.X.(*ssa.Parameter)
+		if !ok {
+			continue
+		}
+		_, fk := bndFieldKey(fa)
+		for i, q := range f.Params {
+			if q == pa && fk != "" && !seenField[fmt.Sprintf("%d/%s", i, fk)] {
+				seenField[fmt.Sprintf("%d/%s", i, fk)] = true
+				cands = append(cands, cand{i, true, lenNode(ld).n, fk})
+			}
+		}
+	}
+	if len(cands) == 0 {
+		c.bret[k] = nil
+		return nil
+	}
+	// the program points after which the function returns `truth`
+	var points []ssa.Instruction
+	isConstBool := func(v ssa.Value) (bool, bool) {
+		kc, ok := v.(*ssa.Const)
+		if !ok || kc.Value == nil || kc.Value.Kind() != constant.Bool {
+			return false, false
+		}
+		return constant.BoolVal(kc.Value), true
+	}
+	for _, b := range f.Blocks {
+		ret, ok := b.Instrs[len(b.Instrs)-1].(*ssa.Return)
+		if !ok {
+			continue
+		}
+		v := ret.Results[0]
+		if bv, isK := isConstBool(v); isK {
+			if bv == truth {
+				points = append(points, ret)
+			}
+			continue
+		}
+		if phi, isPhi := v.(*ssa.Phi); isPhi && phi.Block() == b {
+			for i, e := range phi.Edges {
+				if bv, isK := isConstBool(e); isK && bv != truth {
+					continue
+				}
+				pr := b.Preds[i]
+				points = append(points, pr.Instrs[len(pr.Instrs)-1])
+			}
+			continue
+		}
+		points = append(points, ret)
+	}
+	type acc struct {
+		ok bool
+		c  int64
+	}
+	ups := make([]acc, len(cands))
+	los := make([]acc, len(cands))
+	zero := bnode{}
+	for pi, at := range points {
+		q := newBndProver(c, at, depth+1)
+		var terms []blin
+		for _, cd := range cands {
+			terms = append(terms, blin{n: cd.n})
+		}
+		q.saturate(terms...)
+		for i, cd := range cands {
+			var up, lo acc
+			if kk, has := q.dist(cd.n)[zero]; has {
+				up = acc{true, kk}
+			}
+			if kk, has := q.dist(zero)[cd.n]; has {
+				lo = acc{true, -kk}
+			}
+			if pi == 0 {
+				ups[i], los[i] = up, lo
+				continue
+			}
+			if !up.ok {
+				ups[i].ok = false
+			} else if ups[i].ok && up.c > ups[i].c {
+				ups[i].c = up.c
+			}
+			if !lo.ok {
+				los[i].ok = false
+			} else if los[i].ok && lo.c < los[i].c {
+				los[i].c = lo.c
+			}
+		}
+	}
+	var out []bretFact
+	if len(points) > 0 {
+		for i, cd := range cands {
+			if ups[i].ok {
+				out = append(out, bretFact{cd.param, cd.ln, true, ups[i].c, cd.field})
+			}
+			if los[i].ok && !(cd.ln && los[i].c <= 0) { // a length is never negative anyway
+				out = append(out, bretFact{cd.param, cd.ln, false, los[i].c, cd.field})
+			}
+		}
+	}
+	c.bret[k] = out
+	return out
+}
+
+// boolSummaryFacts: what a branch on a call to a read-only boolean module function shows.
+func (p *bndProver) boolSummaryFacts(call *ssa.Call, truth bool) {
+	callee := call.Call.StaticCallee()
+	if callee == nil || len(callee.Blocks) == 0 || !p.c.G.InSc[callee] {
+		return
+	}
+	args := call.Call.Args
+	for _, f := range p.c.boolSummary(callee, truth, p.depth) {
+		if f.param < 0 || f.param >= len(args) {
+			continue
+		}
+		var node blin
+		switch {
+		case f.field != "":
+			// any load of that field of the same object in this function whose value cannot
+			// differ from what the callee read: an unchanging field, or a load next to the call
+			var ld *ssa.UnOp
+			for _, ins := range instrsIn(call.Parent()) {
+				l0, ok := ins.(*ssa.UnOp)
+				if !ok || l0.Op != token.MUL {
+					continue
+				}
+				fa, ok := l0.X.(*ssa.FieldAddr)
+				if !ok {
+					continue
+				}
+				if _, fk := bndFieldKey(fa); fk != f.field {
+					continue
+				}
+				if fa.X != args[f.param] && p.c.canon(fa.X) != p.c.canon(args[f.param]) {
+					continue
+				}
+				if p.c.memKey(l0, 0) != "" {
+					ld = l0
+					break
+				}
+			}
+			if ld == nil {
+				ld = fieldLoadNear(call, args[f.param], f.field)
+			}
+			if ld == nil {
+				continue
+			}
+			node = lenNode(ld)
+		case f.ln:
+			node = lenNode(args[f.param])
+		default:
+			node = bnorm(args[f.param])
+		}
+		if f.upper {
+			p.le(node, blin{c: f.c})
+		} else {
+			p.le(blin{c: f.c}, node)
+		}
+	}
 }
